@@ -1778,3 +1778,64 @@ func c01r16(c *Ctx) {
 		ir.Fail("no call of Store.AddBlock found in chain.Manager")
 	}
 }
+
+func init() {
+	register(&Rule{ID: "C09.R9", Prop: "C09", Floor: 4, Doc: "a locked contract is released on every exit of the handler: no return lies between the successful lock and the (deferred) release", Run: c09r9})
+	register(&Rule{ID: "C08.R11", Prop: "C08", Floor: 4, Doc: "a rejected request (bad challenge, bad signature) leaves the contract unlocked again (same check as C09.R9)", Run: c09r9})
+	add := func(prop, text string) { Explanations[prop] += " " + text }
+	add("C09", "(R9) in every RHP4 handler that locks a contract, each path from the success side of the lock to a return passes the release — a `defer unlock()` (directly or in a deferred literal) or a call of it: an early return between lock and defer (a failed challenge check, say) leaves the contract locked for good, and no later append, free or roots RPC can touch it.")
+	add("C08", "(R11) the check of C09.R9: a request that is refused after the lock was taken must give the lock back.")
+}
+
+func c09r9(c *Ctx) {
+	h := getHostAPI(c.P)
+	n := 0
+	for _, f := range h.handlers {
+		for _, site := range h.lockSites(f) {
+			if site.unlock == nil || len(site.chk.Succ) == 0 {
+				continue
+			}
+			n++
+			c.VisitGraph(f)
+			ob := c.Ob(f, "lock-released-on-every-exit", site.call.Pos())
+			// the release, also under another name (`locked.unlock = unlock`)
+			names := map[types.Object]bool{site.unlock: true}
+			for _, w := range f.WritesIn(f.Body, false) {
+				if w.RHS != nil && f.ObjOf(ast.Unparen(w.RHS)) == site.unlock {
+					if o := f.ObjOf(ast.Unparen(w.LHS)); o != nil {
+						names[o] = true
+					}
+				}
+			}
+			releases := func(nd *cfgx.Node) bool {
+				if nd.AST == nil {
+					return false
+				}
+				hit := false
+				ast.Inspect(nd.AST, func(y ast.Node) bool {
+					if call, ok := y.(*ast.CallExpr); ok {
+						if o := f.ObjOf(ast.Unparen(call.Fun)); o != nil && names[o] {
+							hit = true
+						}
+					}
+					return !hit
+				})
+				return hit
+			}
+			var wit *cfgx.Visit
+			for nd, v := range f.ReachableFromEdges(site.chk.Succ, releases) {
+				if _, isRet := nd.AST.(*ast.ReturnStmt); (isRet || nd.Exit) && wit == nil {
+					wit = v
+				}
+			}
+			if wit != nil {
+				ob.Bad(c.Witness(wit), "%s can return after locking the contract at %s without releasing it (the release is registered or called only later): the contract stays locked, and every later RPC on it — append, free, roots, fund — is refused", f.Name(), c.P.Pos(site.call.Pos()))
+			} else {
+				ob.OK("every exit behind the lock passes the release")
+			}
+		}
+	}
+	if n == 0 {
+		ir.Fail("no contract lock with a release function found in the RHP4 handlers")
+	}
+}
